@@ -9,6 +9,7 @@ import (
 	"os"
 	"path/filepath"
 	"strings"
+	"sync"
 	"syscall"
 	"testing"
 	"time"
@@ -55,6 +56,9 @@ type Edit struct {
 	Op   string `json:"op"`   // write, delete, mkdir, link, chmodx, ignored, fifo, badname
 	Path string `json:"path"`
 	Arg  string `json:"arg,omitempty"`
+	// Mid edits are applied in the middle of the cycle: right before the
+	// side's endpoint receives its Transition call (after its scan).
+	Mid bool `json:"mid_cycle,omitempty"`
 }
 
 // Case is a mode plus a list of cycles, each a list of edits.
@@ -151,6 +155,9 @@ func unsyncObjects(n *disk.Node, e *core.Entry, path string, out map[string]stri
 type observation struct {
 	aN, bN *disk.Node
 	a, b   *core.Entry
+	// da, db are the trees against which destruction is judged: a / b, or the
+	// observation taken right after the test's own mid-cycle edits.
+	da, db *core.Entry
 	anc    *core.Entry
 	raw    []byte
 }
@@ -171,10 +178,55 @@ func observe(aRoot, bRoot, archive string) (*observation, error) {
 	return o, nil
 }
 
+// synced is the test's own record, per side, of the last successfully
+// synchronized content per path: the content both roots were last observed to
+// agree on after a cycle, or the content a cycle itself wrote to that side
+// (propagated content is synchronized content even if its source has changed
+// again meanwhile). It is independent of the session's archive.
+var synced map[string]map[string]*core.Entry
+
+func slim(e *core.Entry) *core.Entry {
+	s := tree.Sync(e)
+	if s == nil {
+		return nil
+	}
+	return &core.Entry{Kind: s.Kind, Executable: s.Executable, Digest: s.Digest, Target: s.Target}
+}
+
+// updateSynced records agreement between the two roots after a cycle and what
+// the cycle wrote on each side (difference between the side as the test left
+// it and as it is after the cycle).
+func updateSynced(leftA, leftB, a, b *core.Entry, path string) {
+	la, lb, x, y := tree.At(leftA, path), tree.At(leftB, path), tree.At(a, path), tree.At(b, path)
+	if tree.ShallowEqual(slim(x), slim(y)) {
+		synced["alpha"][path], synced["beta"][path] = slim(x), slim(y)
+	}
+	if !tree.ShallowEqual(slim(la), slim(x)) {
+		synced["alpha"][path] = slim(x)
+	}
+	if !tree.ShallowEqual(slim(lb), slim(y)) {
+		synced["beta"][path] = slim(y)
+	}
+	seen := map[string]bool{}
+	for _, e := range []*core.Entry{la, lb, x, y} {
+		for _, n := range tree.Names(e) {
+			if !seen[n] {
+				seen[n] = true
+				updateSynced(leftA, leftB, a, b, tree.Join(path, n))
+			}
+		}
+	}
+}
+
 func destroyedOutsideAncestor(side string, pre, post, anc *core.Entry) string {
 	for _, d := range tree.Destroyed("", tree.Sync(pre), tree.Sync(post)) {
 		if !tree.ShallowEqual(tree.At(anc, d.Path), d.Entry) {
 			return fmt.Sprintf("%s: %q = %s was deleted or overwritten by the cycle although it differs from the last-synchronized %s", side, d.Path, tree.Render(d.Entry), tree.Render(tree.At(anc, d.Path)))
+		}
+		if synced != nil {
+			if last := synced[side][d.Path]; !tree.ShallowEqual(last, d.Entry) {
+				return fmt.Sprintf("%s: %q = %s was deleted or overwritten by the cycle although both roots last agreed on %s there (the archive claims %s)", side, d.Path, tree.Render(d.Entry), tree.Render(last), tree.Render(tree.At(anc, d.Path)))
+			}
 		}
 	}
 	return ""
@@ -192,10 +244,10 @@ func judgeCycle(p, mode string, pre, post *observation, st *synchronization.Stat
 	m := modeByName[mode]
 	switch p {
 	case "C01":
-		if v := destroyedOutsideAncestor("alpha", pre.a, post.a, pre.anc); v != "" {
+		if v := destroyedOutsideAncestor("alpha", pre.da, post.a, pre.anc); v != "" {
 			return v, false
 		}
-		if v := destroyedOutsideAncestor("beta", pre.b, post.b, pre.anc); v != "" {
+		if v := destroyedOutsideAncestor("beta", pre.db, post.b, pre.anc); v != "" {
 			return v, false
 		}
 		// Both-sided creations/modifications must be reported as conflicts
@@ -225,13 +277,13 @@ func judgeCycle(p, mode string, pre, post *observation, st *synchronization.Stat
 				return v, false
 			}
 			if m == core.SynchronizationMode_SynchronizationModeOneWaySafe {
-				if v := destroyedOutsideAncestor("beta", pre.b, post.b, pre.anc); v != "" {
+				if v := destroyedOutsideAncestor("beta", pre.db, post.b, pre.anc); v != "" {
 					return v, false
 				}
 			}
 			nontrivial = !tree.SubsetOf(tree.Sync(pre.b), pre.anc) && !tree.DeepEqual(pre.a, pre.b)
 		default:
-			if v := destroyedOutsideAncestor("alpha", pre.a, post.a, pre.anc); v != "" {
+			if v := destroyedOutsideAncestor("alpha", pre.da, post.a, pre.anc); v != "" {
 				return v, false
 			}
 			nontrivial = !tree.SubsetOf(tree.Sync(pre.a), pre.anc) && !tree.DeepEqual(pre.a, pre.b)
@@ -296,6 +348,9 @@ func drawEdits(rt *rapid.T, p string) []*Edit {
 		case "link":
 			e.Arg = rapid.SampledFrom([]string{"a", "b/c", "nowhere"}).Draw(rt, "target")
 		}
+		if (p == "C01" || p == "C02") && (e.Op == "write" || e.Op == "delete") && rapid.IntRange(0, 4).Draw(rt, "mid") == 0 {
+			e.Mid = true
+		}
 		out = append(out, e)
 	}
 	return out
@@ -305,6 +360,27 @@ type runner struct {
 	env  *sess.Env
 	base string
 	n    int
+
+	mu      sync.Mutex
+	session string
+	roots   map[bool]string    // alpha? -> root
+	mid     map[bool][]*Edit   // pending mid-cycle edits per side
+	midObs  map[bool]*disk.Node // observation of the side right after its mid-cycle edits
+	clock   *int64
+}
+
+// hook runs right before an endpoint's Transition call.
+func (r *runner) hook(session string, alpha bool, transitions []*core.Change) (bool, []*core.Entry, []*core.Problem, bool, error) {
+	r.mu.Lock()
+	defer r.mu.Unlock()
+	if session == r.session && len(r.mid[alpha]) > 0 {
+		for _, e := range r.mid[alpha] {
+			apply(r.roots[alpha], e, r.clock)
+		}
+		r.mid[alpha] = nil
+		r.midObs[alpha], _ = disk.Observe(r.roots[alpha])
+	}
+	return false, nil, nil, false, nil
 }
 
 // runCase executes a case on fresh roots with a fresh session.
@@ -324,8 +400,27 @@ func (r *runner) runCase(p string, c *Case) (violation string, nontrivial bool, 
 	defer r.env.Terminate(id)
 	archive := r.env.ArchivePath(id)
 	clock := int64(1_700_000_000)
+	r.mu.Lock()
+	r.session, r.roots, r.clock = id, map[bool]string{true: aRoot, false: bRoot}, &clock
+	r.mid, r.midObs = map[bool][]*Edit{}, map[bool]*disk.Node{}
+	r.mu.Unlock()
+	synced = nil
+	if p == "C01" || p == "C02" {
+		synced = map[string]map[string]*core.Entry{"alpha": {"": {Kind: tree.KDir}}, "beta": {"": {Kind: tree.KDir}}}
+	}
 	for ci, edits := range c.Cycles {
+		r.mu.Lock()
+		r.mid, r.midObs = map[bool][]*Edit{}, map[bool]*disk.Node{}
 		for _, e := range edits {
+			if e.Mid && (p == "C01" || p == "C02") {
+				r.mid[e.Side == "alpha"] = append(r.mid[e.Side == "alpha"], e)
+			}
+		}
+		r.mu.Unlock()
+		for _, e := range edits {
+			if e.Mid {
+				continue
+			}
 			root := aRoot
 			if e.Side == "beta" {
 				root = bRoot
@@ -342,6 +437,17 @@ func (r *runner) runCase(p string, c *Case) (violation string, nontrivial bool, 
 		if err != nil {
 			return fmt.Sprintf("cycle %d: after flush: %v", ci, err), false, ci
 		}
+		// Content the test itself changed in the middle of the cycle is
+		// judged from the observation taken right after that edit.
+		r.mu.Lock()
+		pre.da, pre.db = pre.a, pre.b
+		if o := r.midObs[true]; o != nil {
+			pre.da = disk.Expect(o, scanOpts)
+		}
+		if o := r.midObs[false]; o != nil {
+			pre.db = disk.Expect(o, scanOpts)
+		}
+		r.mu.Unlock()
 		if post.anc != nil && tree.HasUnsync(post.anc) {
 			return fmt.Sprintf("cycle %d: saved archive contains unsynchronizable content: %s", ci, tree.Render(post.anc)), false, ci
 		}
@@ -381,6 +487,9 @@ func (r *runner) runCase(p string, c *Case) (violation string, nontrivial bool, 
 				return fmt.Sprintf("cycle %d (%s): %s", ci, c.Mode, v), false, ci
 			}
 			nontrivial = nontrivial || nt
+		}
+		if synced != nil {
+			updateSynced(pre.da, pre.db, post.a, post.b, "")
 		}
 		cycles++
 		if flushErr != nil {
@@ -436,7 +545,7 @@ func renderCase(c *Case) []string {
 	for i, cy := range c.Cycles {
 		var s []string
 		for _, e := range cy {
-			s = append(s, fmt.Sprintf("%s:%s %s %s", e.Side, e.Op, e.Path, e.Arg))
+			s = append(s, fmt.Sprintf("%s:%s%s %s %s", e.Side, map[bool]string{true: "(mid-cycle)", false: ""}[e.Mid], e.Op, e.Path, e.Arg))
 		}
 		out = append(out, fmt.Sprintf("cycle %d: %s", i, strings.Join(s, "; ")))
 	}
@@ -455,8 +564,9 @@ func TestSessionHistories(t *testing.T) {
 		t.Fatal(err)
 	}
 	defer env.Close()
-	sess.Install(nil, nil)
 	r := &runner{env: env, base: base}
+	sess.Install(nil, &sess.Hooks{Transition: r.hook})
+	defer sess.Install(nil, nil)
 	ev.Check(t, rec, 150, 6000, func(rt *rapid.T) {
 		c := &Case{Mode: rapid.SampledFrom(modesFor(p)).Draw(rt, "mode")}
 		for n := rapid.IntRange(3, 8).Draw(rt, "cycles"); n > 0; n-- {
@@ -498,8 +608,9 @@ func TestReplay(t *testing.T) {
 		t.Fatal(err)
 	}
 	defer env.Close()
-	sess.Install(nil, nil)
 	r := &runner{env: env, base: base}
+	sess.Install(nil, &sess.Hooks{Transition: r.hook})
+	defer sess.Install(nil, nil)
 	if v, _, _ := r.runCase(p, &c); v != "" {
 		ev.FailTB(t, rec, &c, "%s", v)
 	}
